@@ -142,7 +142,8 @@ def run(ctx):
         "the reference encoder is independent of the decoder by construction of definitions (Spec leaf selection, "
         "forward transforms), not by authorship; there is no libjxl in the sandbox",
         "entropy coding in these streams is the fixed-length prefix code of Model/Enc/EntropyV0 (C04 covers the rest)",
-        "flattened-tree = tree, predictor-state = grid neighbours, palette and group partition are tied by this "
-        "differential run, not (yet) by theorem",
+        "flattened-tree = tree, predictor-state = grid neighbours, the transform chain (inverse of forward under "
+        "chainOk) and the group partition are theorems (Props/C03.lean); their composition inside encodeFrame into "
+        "one end-to-end statement is tied by this differential run, not (yet) by theorem",
         "extra channels with dim_shift > 0 and float samples are not generated yet",
     ]
